@@ -1,7 +1,7 @@
 (* C17 - Node-label operations agree with their bit-string meaning.
    Property theorems only; every proof is [exact <lemma>]. *)
 From Coq Require Import List Bool NArith.
-From Akd Require Import ElemSet ElemSetFacts ContainsPrefix InsertRefine ContainsPrefixSorted BitsLabel.
+From Akd Require Import ElemSet ElemSetFacts ContainsPrefix InsertRefine ContainsPrefixSorted ContainsPrefixFrom BitsLabel.
 From Akd Require Import Bits NodeLabel NodeLabelFacts.
 Import ListNotations.
 Open Scope N_scope.
@@ -188,6 +188,14 @@ Proof.
   intros x Hx. cbn [In] in Hx.
   destruct Hx as [E|[E|[E|[E|[]]]]]; subst x; vm_compute; discriminate.
 Qed.
+
+(* whatever representation `AzksElementSet::from` chooses for the given elements *)
+Theorem C17_contains_prefix_of_from : forall p elems,
+  WF p -> canonical p = true -> elabs_ok elems -> NoDup (map e_label elems) ->
+  (forall x, In x elems -> llen p <= llen (e_label x)) ->
+  eset_contains_prefix (eset_from elems) p = existsb (extends p) elems.
+Proof. exact contains_prefix_of_from. Qed.
+Print Assumptions C17_contains_prefix_of_from.
 
 (* partition OUTSIDE its contract ("the label *must* be a common prefix of all nodes in the set",
    append_only_zks.rs): with elements that do not extend the label the two representations
